@@ -956,6 +956,19 @@ impl Interp {
                 }
                 (RVal::Void, env)
             }
+            Stmt::Import(_, body) => {
+                // an import yields exactly the top-level names of the file, evaluated in a scope of its own
+                let inner = self.block_env(body, env.clone())?;
+                let mut m = BTreeMap::new();
+                for s in body {
+                    for n in declared_names(s) {
+                        if let Some(v) = inner.get(&n) {
+                            m.insert(n, v.clone());
+                        }
+                    }
+                }
+                (RVal::Struct(Rc::new(m)), env)
+            }
             Stmt::Break => {
                 self.counters.nonlocal_exits += 1;
                 return Err(Stop::Break);
